@@ -117,6 +117,32 @@ def make_unassigned_cell():
   return fn
 
 
+def make_converted_before_assignment():
+  """The function is converted WHILE two of its closure cells are still empty (a helper
+  defined further down and a variable assigned later): the converted function must share
+  those very cells, so that the later bindings are seen on both sides."""
+  import malt
+
+  def inner(a):
+    if a > 0:
+      return helper(a) + late
+    return late
+
+  conv = malt.to_graph(inner)
+
+  def helper(v):
+    return v * 2
+
+  late = 50
+
+  def setter(v):
+    nonlocal late
+    late = v
+    return late
+
+  return inner, conv, setter
+
+
 def make_directive_only_free_var():
   import malt as m2   # referenced only by a directive call, which conversion removes
   k = 3
